@@ -51,7 +51,7 @@ class Drv:
         e["ASAN_OPTIONS"] = "detect_leaks=0:abort_on_error=1"
         e["UBSAN_OPTIONS"] = "halt_on_error=1:abort_on_error=1"
         if env:
-            e.update(env)
+            e.update({k: v for k, v in env.items() if k != "_fds"})
         self.p = subprocess.Popen([os.path.join(d, exe)], stdin=subprocess.PIPE, stdout=subprocess.PIPE,
                                   stderr=subprocess.PIPE if flavour != "plain" else subprocess.DEVNULL,
                                   cwd=cwd, env=e, text=True, bufsize=1, pass_fds=(env or {}).get("_fds", ()), preexec_fn=preexec)
@@ -92,6 +92,41 @@ class Drv:
             return json.loads(line)
         except ValueError:
             raise MachineryError("driver wrote a non-JSON line: %r (command %r)" % (line[:300], str(c)[:300]))
+
+    def post(self, c):
+        """Send a command without waiting for the reply (collective operations that block until peers act)."""
+        if self.dead:
+            return
+        try:
+            self.p.stdin.write(json.dumps(c) + "\n")
+            self.p.stdin.flush()
+        except (BrokenPipeError, OSError):
+            pass
+
+    def ready(self, timeout=0.0):
+        import select
+        r, _, _ = select.select([self.p.stdout], [], [], timeout)
+        return bool(r)
+
+    def collect(self):
+        """Reply to an earlier post()."""
+        if self.dead:
+            return self.dead
+        try:
+            line = self._readline()
+        except (BrokenPipeError, OSError):
+            line = ""
+        if not line:
+            if not self.dead:
+                rc = None
+                try:
+                    rc = self.p.wait(timeout=5)
+                except Exception:
+                    self.p.kill()
+                    rc = self.p.wait()
+                self.dead = {"op": "died", "signal": -rc if rc is not None and rc < 0 else 0, "rc": rc}
+            return self.dead
+        return json.loads(line)
 
     def _readline(self):
         # watchdog through alarm-less polling: use select on the pipe
